@@ -175,6 +175,42 @@ def api_probes(ctx):
                 ctx.violation("returned-details-alias-argument", "editing the arrays in the details returned by "
                               f"compute_poc(force, {pm!r}, ret_details=True) changed the caller's force array",
                               {"input": {"method": pm, "curve": cid}})
+        # the details handed out belong to the options as they are NOW: the caller keeps the option dictionary,
+        # edits it in place between calls and applies it with and without asking for details
+        pms = [f.identifier for f in poc.POC_METHODS]
+        for k_, m1 in enumerate(pms):
+            m2 = pms[(k_ + 1 + cid) % len(pms)]
+            if m1 == m2:
+                continue
+            for route in ("apply_preprocessing", "fit_model"):
+                steps_ = ["compute_tip_position", "correct_force_offset", "correct_tip_offset"]
+                opts_ = {"correct_tip_offset": {"method": m1}}
+                with warnings.catch_warnings():
+                    warnings.simplefilter("ignore")
+                    a_ = histlib.fresh(cid)
+                    a_.apply_preprocessing(steps_, opts_, ret_details=True)
+                    opts_["correct_tip_offset"]["method"] = m2
+                    if route == "fit_model":
+                        try:
+                            a_.fit_model(preprocessing=steps_, preprocessing_options=opts_, model_key="hertz_para")
+                        except BaseException:  # noqa
+                            pass
+                    else:
+                        a_.apply_preprocessing(steps_, opts_)
+                    det3 = a_.apply_preprocessing(steps_, opts_, ret_details=True)
+                    ref_ = histlib.fresh(cid).apply_preprocessing(copy.deepcopy(steps_), copy.deepcopy(opts_),
+                                                                  ret_details=True)
+                ctx.case({"probe": "details-after-option-edit", "curve": cid, "from": m1, "to": m2, "route": route},
+                         nontrivial=f"probe:details-edit:{m1}:{m2}:{route}:{cid}", bucket="stream=api-probes")
+                if deep_state(det3) != deep_state(ref_):
+                    ctx.violation("details-of-earlier-options", "the details returned for the caller's option dictionary "
+                                  f"(method edited in place from {m1!r} to {m2!r}, applied through {route} in between) "
+                                  "are not those of a fresh curve given an equal-valued dictionary",
+                                  {"history": [f"apply_preprocessing({steps_}, opts = {{'correct_tip_offset': "
+                                               f"{{'method': {m1!r}}}}}, ret_details=True)",
+                                               f"opts['correct_tip_offset']['method'] = {m2!r}",
+                                               f"{route}(... steps, opts)",
+                                               "apply_preprocessing(steps, opts, ret_details=True)"], "curve": cid})
         # numerical functions must not modify their array arguments
         f = np.array(idnt["force"], copy=True)
         for m in [f.identifier for f in poc.POC_METHODS]:
